@@ -85,6 +85,26 @@ type ShapeFold struct {
 	Kelvin  *int64  `cbor:"64,keyasint,omitempty" json:"\u212a,omitempty"`
 }
 
+// an embedded struct whose TYPE is unexported (its exported fields are
+// promoted and (un)marshalled by the plain codecs)
+type shapeLower struct {
+	X *int64 `cbor:"10,keyasint,omitempty" json:"x,omitempty"`
+	Y string `cbor:"11,keyasint" json:"y"`
+}
+
+type ShapeOuterLower struct {
+	shapeLower
+	P *string `cbor:"20,keyasint,omitempty" json:"p,omitempty"`
+}
+
+// tag options in another order: omitempty before keyasint
+type ShapeTagOrder struct {
+	A *int64  `cbor:"70,omitempty,keyasint" json:"ta,omitempty"`
+	B string  `cbor:"71,keyasint" json:"tb"`
+	C *string `cbor:"72,omitempty,keyasint" json:"tc,omitempty"`
+	D int64   `cbor:"73,omitempty,keyasint" json:"td,omitempty"`
+}
+
 type ShapeEmpty struct{}
 
 type ShapeAllOptional struct {
@@ -162,6 +182,12 @@ func (s *ShapeOuterI) fields() []fd {
 	}
 	return r
 }
+func (s *ShapeOuterLower) fields() []fd {
+	return []fd{fPtrStr(20, "p", true, s.P), fPtrInt(10, "x", true, s.X), fStr(11, "y", false, s.Y)}
+}
+func (s *ShapeTagOrder) fields() []fd {
+	return []fd{fPtrInt(70, "ta", true, s.A), fStr(71, "tb", false, s.B), fPtrStr(72, "tc", true, s.C), fInt(73, "td", true, s.D)}
+}
 func (s *ShapeFold) fields() []fd {
 	return []fd{fPtrStr(60, "hwver", true, s.HwVer), fPtrStr(61, "HWVER", true, s.HwVerV2), fInt(62, "serial", false, s.Serial), fPtrInt(63, "k", true, s.K), fPtrInt(64, "\u212a", true, s.Kelvin)}
 }
@@ -223,7 +249,13 @@ func drawInner(t *rapid.T, l string) ShapeInner {
 // drawShape returns the value, a function making a fresh destination, and the
 // shape's name.
 func drawShape(t *rapid.T) (shape, func() any, string) {
-	switch rapid.IntRange(0, 9).Draw(t, "shape") {
+	switch rapid.IntRange(0, 11).Draw(t, "shape") {
+	case 10:
+		s := &ShapeOuterLower{shapeLower: shapeLower{X: drawOptInt(t, "in.x"), Y: drawStr(t, "in.y")}, P: drawOptStr(t, "p")}
+		return s, func() any { return &ShapeOuterLower{} }, "embedded-unexported-type"
+	case 11:
+		s := &ShapeTagOrder{A: drawOptInt(t, "a"), B: drawStr(t, "b"), C: drawOptStr(t, "c"), D: drawInt(t, "d")}
+		return s, func() any { return &ShapeTagOrder{} }, "tag-option-order"
 	case 8:
 		// the embedded interface holds the implementation by value (only
 		// readable: the destination of a populate holds a pointer)
@@ -525,12 +557,12 @@ func c15CheckJSON(s shape, fresh func() any, plainComparable bool) string {
 }
 
 func TestC15_Shapes(t *testing.T) {
-	st := NewStats("C15", "TestC15_Shapes", "rapid: ten hand-declared struct shapes following the claims convention (flat; one- and two-level embedded struct; embedded interface holding a struct pointer, a struct by value, or nil; empty struct; all-optional struct; a struct whose JSON member names differ only by (Unicode) case) x random field values x random subsets of optional fields set. CBOR: output parsed by the independent reader must be ONE definite map whose entries equal, in declaration order, the hand-written union of outer+embedded fields honouring omitempty and '-'; populate(serialise(x)) == x; for shapes without embedding the decoded map equals the plain marshaller's; bytes stable; deleting any non-optional key or duplicating a key makes populate fail. JSON likewise (no duplicate clause; a differently-cased spelling of a missing non-optional member does not stand in for it). Non-trivial = has an embedded level, or is the empty/all-absent struct; distinct = shape + presence mask")
-	st.Require = []string{"flat", "embedded-1", "embedded-2", "embedded-iface", "embedded-iface-nil", "embedded-iface-value", "case-fold-names", "empty", "all-optional", "zero-entries"}
+	st := NewStats("C15", "TestC15_Shapes", "rapid: twelve hand-declared struct shapes following the claims convention (flat; one- and two-level embedded struct; embedded interface holding a struct pointer, a struct by value, or nil; empty struct; all-optional struct; a struct whose JSON member names differ only by (Unicode) case; an embedded struct of an unexported type; tag options with omitempty before keyasint) x random field values x random subsets of optional fields set. CBOR: output parsed by the independent reader must be ONE definite map whose entries equal, in declaration order, the hand-written union of outer+embedded fields honouring omitempty and '-'; populate(serialise(x)) == x; for shapes without embedding the decoded map equals the plain marshaller's; bytes stable; deleting any non-optional key or duplicating a key makes populate fail. JSON likewise (no duplicate clause; a differently-cased spelling of a missing non-optional member does not stand in for it). Non-trivial = has an embedded level, or is the empty/all-absent struct; distinct = shape + presence mask")
+	st.Require = []string{"flat", "embedded-1", "embedded-2", "embedded-iface", "embedded-iface-nil", "embedded-iface-value", "case-fold-names", "embedded-unexported-type", "tag-option-order", "empty", "all-optional", "zero-entries"}
 	defer st.Flush(t)
 	rapid.Check(t, func(t *rapid.T) {
 		s, fresh, name := drawShape(t)
-		plain := name == "flat" || name == "empty" || name == "all-optional"
+		plain := name == "flat" || name == "empty" || name == "all-optional" || name == "tag-option-order"
 		if msg := c15CheckCBOR(s, fresh, plain); msg != "" {
 			t.Fatalf("C15 violated (CBOR, shape %s): %s", name, msg)
 		}
